@@ -435,7 +435,12 @@ func H_C04_history() {
 				return
 			}
 			u := fars[k][1]
-			switch vChoose("far_change", 4) {
+			u.noOHC = false
+			switch vChoose("far_change", 5) {
+			case 4:
+				// the UE goes idle: buffer, and the update names no tunnel any more
+				u.action = ActionBuffer | ActionNotify
+				u.noOHC = true
 			case 0:
 				u.peer = vGNBs[vChoose("new_gnb", len(vGNBs))]
 				u.teid = 0x7000 + uint32(k)
